@@ -260,7 +260,7 @@ def run_prog(case, pid, at_limit_fn=None, on_step=None):
                     violations.append({'rule': '%s/result' % pid, 'sig': 'iterkeys', 'detail': '%s %s' % (r1, r2)})
                 else:
                     check_sorted_keys(json.loads(r1[1][5:]), json.loads(r2[1][5:]),
-                                      [it.key for it in model.rows.values()], violations, pid)
+                                      [it.key for it in model.rows.values()], violations, pid, order=cfg.get('disk') != 'json')
                 if violations:
                     break
                 continue
